@@ -86,7 +86,8 @@ func loopTagCompiler(node render.BlockNode) (func(io.Writer, render.Context) err
 
 		iter := makeIterator(val)
 		if iter == nil {
-			return nil
+			// nil (or a value that cannot be iterated) selects nothing, so that the else branch renders
+			iter = sliceWrapper(reflect.ValueOf([]any{}))
 		}
 
 		iter, err = applyLoopModifiers(stmt.Loop, ctx, iter)
